@@ -103,8 +103,8 @@ def gen_plan(rng, special=0.25, sizes=(1, 3)):
         nstems = rng.choice([0, 1, 2, 2, 3, 4])
         for _ in range(nstems):
             st = rng.choice(SPECIAL_STEMS) if rng.random() < special else rng.choice(STEMS)
-            if rng.random() < 0.012:
-                st = rng.choice(INIT_PREFIXED)  # known finding C19-F13
+            if rng.random() < 0.06:
+                st = rng.choice(INIT_PREFIXED)  # ordinary revision files (regression guard for fixed finding C19-F13)
             base = pick_content()
             forms = set()
             r = rng.random()
@@ -389,7 +389,3 @@ REGEXES = {
     "legacy": script_base._legacy_rev,
 }
 
-# which look-ahead do the regexes of the tree under test have?  (?!\.\#|__init__) rejects every name that
-# starts with __init__ (pinned tree, finding C19-F13); a repaired (?!\.\#|__init__\.) rejects only the module
-# __init__.  Determined from behaviour, passed to the model as Cfg.initDot.
-INIT_DOT = REGEXES["source"].match("__init__x.py") is not None
